@@ -671,3 +671,66 @@ func deepRoots(v ssa.Value, out map[ssa.Value]bool) {
 		expand(r, 0)
 	}
 }
+
+// onlyViaBlock: every path from fn's entry to target enters block via (edges into it are the only way)
+func (c *Ctx) onlyViaBlock(fn *ssa.Function, target ssa.Instruction, via *ssa.BasicBlock) bool {
+	if via == nil {
+		return false
+	}
+	q := &PathQ{P: c.P, EdgeBlocked: func(b *ssa.BasicBlock, si int) bool { return b.Succs[si] == via }}
+	hit, _ := q.Reach(entryOf(fn), func(in ssa.Instruction) bool { return in == target })
+	return hit == nil
+}
+
+// successSites: program points at which an error-returning function may return
+// a nil error. A returned value that is only reachable through its own
+// `!= nil` edge is a failure; phi results are examined per incoming edge.
+func (c *Ctx) successSites(fn *ssa.Function) []ssa.Instruction {
+	idx := fn.Signature.Results().Len() - 1
+	var out []ssa.Instruction
+	onlyWhenNonNil := func(v ssa.Value, at ssa.Instruction) bool {
+		for b, si := range nilEdges(v, false) {
+			if c.onlyViaEdge(fn, at, b, si) {
+				return true
+			}
+		}
+		return false
+	}
+	for _, rv := range returnedValues(fn, idx) {
+		v := strip(rv.Val)
+		switch x := v.(type) {
+		case *ssa.Const:
+			if x.IsNil() {
+				out = append(out, rv.At)
+			}
+		case *ssa.Phi:
+			if onlyWhenNonNil(v, rv.At) {
+				continue
+			}
+			if x.Block() != rv.At.Block() {
+				out = append(out, rv.At)
+				continue
+			}
+			for i, e := range x.Edges {
+				p := x.Block().Preds[i]
+				term := p.Instrs[len(p.Instrs)-1]
+				if k, ok := e.(*ssa.Const); ok {
+					if k.IsNil() {
+						out = append(out, term)
+					}
+					continue
+				}
+				if onlyWhenNonNil(e, term) {
+					continue
+				}
+				out = append(out, term)
+			}
+		default:
+			if onlyWhenNonNil(v, rv.At) {
+				continue
+			}
+			out = append(out, rv.At)
+		}
+	}
+	return out
+}
